@@ -628,7 +628,8 @@ def c13(r):
 def expected_zgw(gw, start, n):
     """daily depths from the configured observations: one observation -> constant; "Constant" -> the depth of the
     latest observation on or before the day (the first one before it); "Variable" -> linear interpolation in time
-    between observations, the last value after the last one, undefined (NaN) before the first.
+    between observations (dated inside the simulated period or not), the last value after the last one, undefined
+    (NaN) before the first.
     False when the configuration gives nothing to compare with."""
     if not gw or gw.get("water_table", "Y") != "Y" or not gw.get("dates"):
         return False
@@ -646,11 +647,10 @@ def expected_zgw(gw, start, n):
             past = [v for k, v in obs if k <= t]
             out[t] = past[-1] if past else obs[0][1]
         return out
-    inside = [(k, v) for k, v in obs if 0 <= k < n]
-    if len(inside) != len(obs):
-        return False      # observations outside the window are dropped by label assignment: not compared here
-    ks = np.array([k for k, _ in inside], dtype=float)
-    vs = np.array([v for _, v in inside], dtype=float)
+    # linear in time between the observations, wherever they are dated (before the start, inside the window, after
+    # the end); the last depth after the last observation
+    ks = np.array([k for k, _ in obs], dtype=float)
+    vs = np.array([v for _, v in obs], dtype=float)
     for t in range(n):
         if t >= ks[0]:
             out[t] = np.interp(t, ks, vs)
